@@ -172,6 +172,14 @@ theorem quoted_list_exact (v rest : Bytes) (len : Nat) (hv : ∀ c ∈ v, isPlai
 /- FULL STATEMENT (false of the code): for every quoted-string, `parseQuoted` yields the content with each quoted-pair `\x`
    replaced by `x`. -/
 
+/-- PARTIAL (excluded region as hypothesis: no quoted-pair of DQUOTE or backslash, no HTAB / control / DEL anywhere):
+a quoted-string whose content is any sequence of plain octets and quoted-pairs `\x` of plain octets yields the content with
+every quoted-pair replaced by its octet, whatever follows the closing quote. -/
+theorem quoted_pairs_exact_partial (atoms : QAtoms) (rest : Bytes) (len : Nat) (hv : ∀ a ∈ atoms, isPlainQ a.2 = true)
+    (hlen : (encQ atoms).length + 1 ≤ len) :
+    parseQuoted (34 :: (encQ atoms ++ 34 :: rest)) len = some (valsQ atoms) :=
+  parseQuoted_atoms atoms rest len hv hlen
+
 /-- Counterexample: `"a\"b"` (content a"b) yields `a`: the escaped quote ends the string. -/
 theorem quoted_pair_counterexample : parseQuoted [34, 97, 92, 34, 98, 34] 6 = some [97] := by decide +kernel
 /-- Counterexample: `"a\\b"` (content a\b) yields `ab`: the escaped backslash is dropped. -/
@@ -200,6 +208,15 @@ theorem pack_parse_roundtrip_partial (s : Bytes) (h : (parse s).mask ≠ 0) :
       (parse (pack (parse s))).other = (parse s).other :=
   roundtrip_of_canon (parse s) (parse_canon s).1 (parse_canon s).2 h
 
+/-- … and the second parse succeeds as well (same return value). -/
+theorem pack_parse_roundtrip_ok (s : Bytes) (h : (parse s).mask ≠ 0) : (parse (pack (parse s))).mask ≠ 0 :=
+  roundtrip_ok s h
+
+/-- `parse` returns true iff a known directive is recorded (the `CC_OTHER` bit is never set: that is the excluded region). -/
+theorem parse_ok_iff (s : Bytes) :
+    (parse s).mask ≠ 0 ↔ ∃ t : CcType, t ≠ .other ∧ t ≠ .enumEnd ∧ (parse s).isSet t = true :=
+  mask_ne_zero_iff _ (parse_maskOk s)
+
 /-- the invariants of every parse result that the round trip rests on: recorded numbers are non-negative `int`s, recorded
 field lists contain no DQUOTE, backslash, control octet or DEL (so they can be printed between quotes unescaped), and `other`
 is a ", "-join of well-formed unknown directives -/
@@ -225,6 +242,9 @@ example : GoodItem [112,117,98,108,105,99] := ⟨by decide, by decide, by decide
 example : ¬ NoNumber [49, 48, 120] := by unfold NoNumber; decide
 example : NoNumber [120, 49] := by unfold NoNumber; decide
 example : isPlainQ 97 = true ∧ isPlainQ 44 = true ∧ isPlainQ 32 = true := by decide
+/-- `"a\,b"`: atoms a, \, (quoted-pair of a comma), b -/
+example : encQ [(false, 97), (true, 44), (false, 98)] = [97, 92, 44, 98] ∧ valsQ [(false, 97), (true, 44), (false, 98)] = [97, 44, 98] := by decide
+example : parseQuoted [34, 97, 92, 44, 98, 34] 6 = some [97, 44, 98] := by decide +kernel
 /-- `public, <VT>, no-store`: the VT element is skipped, both directives are seen -/
 example : view (parse [112,117,98,108,105,99,44,32,11,44,32,110,111,45,115,116,111,114,101]) .noStore = some .flag := by decide +kernel
 /-- the round-trip hypothesis is satisfiable, and the round trip is not trivially about empty states -/
